@@ -9,7 +9,8 @@ MODULES = ["TLVerif.Props.C23"]
 THEOREMS = ["TLVerif.Props.C23." + t for t in [
     "crc32_check_value", "crc32_doc_example", "tag_is_crc_of_canonical", "explicit_tag_verbatim", "explicit_tag_kept",
     "canonical_ignores_tag_and_comments", "skipWS_sees_stripped", "skipWS_none_stripped",
-    "canonical_as_documented_partial", "witness_canonical", "witness_documented", "canonical_as_documented_fails_at"]]
+    "canonical_as_documented_partial", "witness_canonical", "witness_documented", "canonical_as_documented_fails_at",
+    "skipWS_layout_invariant", "checkToken_layout_invariant", "expect_layout_invariant"]]
 
 # the documented rules are not followed inside `[ … ]` (see known_findings.d/C23.json): fixed witness
 WITNESS = "syntax.canon - " + hx(b"foo n:# a:n*[x:%int y:(tuple int 1+2)] = Foo;")
